@@ -28,7 +28,7 @@ def rule_trailing_ignored(tin, tout):
     """the field parser reads a prefix of the content and ignores the rest"""
     (t, a), (_, b) = tin, tout
     ca, cb = engine.canon_content(a), engine.canon_content(b)
-    return bool(re.fullmatch(r"5[1-8]A|5[2-8]B|11[RS]?", t)) and ca != cb and ca.startswith(cb)
+    return bool(re.fullmatch(r"5[0-9][ABDFK]?|11[RS]?", t)) and ca != cb and ca.startswith(cb)
 
 def rule_narrative_truncated(tin, tout):
     (t, a), (_, b) = tin, tout
